@@ -788,10 +788,43 @@ def rule_atmost(ck, u, eng):
                 bad = ('%s is followed by %s on a path where it may have moved octets (its result is not known to be negative): '
                        'up to twice the requested count is moved and only the second count reported' % (e.name, names[names.index(e.name) + 1]))
         routes.add(tuple(names))
-    if bad is None and routes != {('sts_cbc',), ('sts_atmost_via_sink',), ('sts_atmost_via_sink', 'sts_atmost_via_source')}:
+    ok_routes = ({('sts_cbc',), ('sts_atmost_via_sink',), ('sts_atmost_via_sink', 'sts_atmost_via_source')},
+                 {('sts_cbc',), ('sts_atmost_via_sink',), ('sts_atmost_via_source',)})
+    if bad is None and routes not in ok_routes:
         bad = 'routes taken: %s' % sorted(routes)
     ck.verdict(bad is None, 'C17.f', fn, cast.where(u.fn(fn)),
-               'octet-by-octet without buffer extension; otherwise via the sink buffer, and via the source buffer only after the first route failed (negative result)' if bad is None else bad)
+               'octet-by-octet without buffer extension; otherwise via the sink buffer where it offers room, else via the source buffer' if bad is None else bad)
+    # "a hard driver error is returned unchanged": with the routes looked into, a path on which a driver was asked and
+    # answered with an error returns that answer.  Going on to the other route after it asks the source a SECOND time (a
+    # one-off hard error is swallowed) or, for a source without buffer, turns the error into -EPIPE; a retry signal
+    # (-EINTR / -EAGAIN) is turned into a failure of the transfer the same way.
+    e2 = sym.Engine(u, sizeof=eng.sizeof if hasattr(eng, 'sizeof') else {}, inline={'sts_atmost_via_sink', 'sts_atmost_via_source', 'byte_buffer_rest'},
+                    other_units=[x for x in eng.units[1:]])
+    bad2 = None
+    ndrv = 0
+    try:
+        ps2 = e2.paths(fn)
+    except (sym.Unsupported, sym.PathLimit) as ex:
+        return ck.broken('C17.f', fn + ':driver-error', cast.where(u.fn(fn)), 'path enumeration: %s' % ex)
+    DRV = ('source_get_chunk_atmost', 'source_get_chunk', 'sink_put_chunk', 'sink_put_chunk_atmost', 'source_get_octet', 'sink_put_octet')
+    for p in ps2:
+        tr = [e for e in p.calls() if e.name in DRV]
+        for i, e in enumerate(tr):
+            ndrv += 1
+            nonneg = e2.entails(p, -L(e.result))           # the path knows the driver did not answer with an error
+            if tr[i + 1:]:
+                if not nonneg:
+                    bad2 = bad2 or ('%s may have answered with an error (%s) and sts_atmost goes on to %s: the source is asked a second time - a one-off hard error is '
+                                    'swallowed, a retry signal is not what the caller sees' % (e.name, e.where(), tr[i + 1].name))
+            elif not nonneg and strip_cast(p.ret) != e.result:
+                bad2 = bad2 or ('%s may answer with an error (%s) and sts_atmost returns %s instead of that answer under {%s}: a hard driver error (or -EINTR / -EAGAIN, on '
+                                'which the counted loops repeat the step) reaches the caller as a different failure' % (
+                                    e.name, e.where(), fmt(p.ret), '; '.join(fmt(c) for c in p.cond_terms()[-3:])[:200]))
+    if ndrv == 0:
+        ck.broken('C17.f', fn + ':driver-error', cast.where(u.fn(fn)), 'no path with a failing driver call found in the buffer-extension routes')
+    else:
+        ck.verdict(bad2 is None, 'C17.f', fn + ':driver-error', cast.where(u.fn(fn)),
+                   'an error a driver answered on either buffer-extension route is what sts_atmost returns (%d such paths)' % ndrv if bad2 is None else bad2)
 
 
 def rule_ext(ck, u, ub, so):
